@@ -287,6 +287,7 @@ def emit(o, repo, T):
     emit_struct(o, repo, T)
     emit_struct3(o, repo, T)
     emit_struct4(o, repo, T)
+    emit_struct5(o, repo, T)
 
 
 def _skip_prologue(T, fn, allowed):
@@ -685,7 +686,10 @@ def emit_struct(o, repo, T):
                 if not kw or set(kw) != {'children', 'weights'} or not isinstance(kw['weights'], ast.Subscript):
                     raise U('to_pc: buffer element is not Sum(children=…, weights=<w>[k])')
                 rows.append((c.lineno, c.func.value.id, ast.unparse(kw['children']), ast.unparse(kw['weights'].value), int(T.const_value(kw['weights'].slice))))
-        for name in ('neg_prod', 'pos_prod'):
+        # the two products, by role (first / second entry of the two-element `sum_children` list), whatever they are called
+        pair = [v for v in T.assignments(fn, 'sum_children') if isinstance(v, ast.List) and len(v.elts) == 2 and all(isinstance(x, ast.Name) for x in v.elts)]
+        prod_names = [x.id for x in T.the(pair, 'sum_children = [<neg product>, <pos product>]').elts]
+        for name, role in zip(prod_names, ('neg_prod', 'pos_prod')):
             p = T.the(T.assignments(fn, name), name)
             kw = {x.arg: x.value for x in p.keywords} if isinstance(p, ast.Call) and T.dotted_name(p.func) == 'Product' else None
             ch = kw and kw.get('children')
@@ -693,8 +697,10 @@ def emit_struct(o, repo, T):
                     and isinstance(ch.left.elts[0], ast.Subscript) and ast.unparse(ch.left.elts[0].value) == 'leaves'
                     and isinstance(ch.right, ast.Subscript) and isinstance(ch.right.value, ast.Name)):
                 raise U(f'to_pc: {name} is not Product(children=[leaves[k]] + <buffer>[…])')
-            prods.append((name, int(T.const_value(ch.left.elts[0].slice)), ch.right.value.id))
+            prods.append((role, int(T.const_value(ch.left.elts[0].slice)), ch.right.value.id))
         sc = [ast.unparse(x) for x in T.assignments(fn, 'sum_children')]
+        for a_, b_ in zip(prod_names, ('neg_prod', 'pos_prod')):
+            sc = [__import__('re').sub(rf'\b{a_}\b', b_, x) for x in sc]
         lv = T.the([x for x in T.assignments(fn, 'leaves')], 'leaves')
         ps = [float(T.const_value(kw.value)) for el in lv.elts for kw in el.keywords if kw.arg == 'p'] if isinstance(lv, ast.List) else None
         if ps is None or len(ps) != 2:
@@ -3702,3 +3708,146 @@ def emit_struct4(o, repo, T):
                 '    (x : List (Option Nat)) (obs_mask : List Bool) (messages : List (List α)) : Option α :=\n'
                 f'  {root_text}')
     const4('cltree.message_passing.body', clt_messages)
+
+
+
+# =========================================================================================================
+# Fifth wave (Oblig/Struct5*.lean): explicit-stack post-order loops (`BinaryCLT.to_pc`, `BinaryCLT.get_scopes`), rendered by the
+# list-program translator tools/listprog.py as ONE Lean function per loop: state before an iteration -> state after it.
+# =========================================================================================================
+def emit_struct5(o, repo, T):
+    import listprog
+    U = T.Untranslatable
+    o.consts.append(listprog.PY5_PRELUDE)
+    cltree = T.parse_file(repo, 'deeprob/spn/structure/cltree.py')
+    TREE = {'get_id': 'getId', 'is_leaf': 'isLeaf', 'get_children': 'getChildren'}
+    NSIG = '(getId : N → Nat) (isLeaf : N → Bool) (getChildren : N → List N) (isIn : Option N → List N → Bool)'
+
+    def nodoc(stmts):
+        return [s for s in stmts if not (isinstance(s, ast.Expr) and isinstance(s.value, ast.Constant))]
+
+    def txt(e):
+        return ast.unparse(e).replace(' ', '')
+
+    import re
+
+    def roles(q, fn, loop):
+        """names of the loop's variables by ROLE (so that renaming a local variable changes nothing): the stack is the loop
+        condition, `last` the variable initialised with None, the buffers the variables initialised with [] (source order)"""
+        stmts = nodoc(fn.body)
+        k = stmts.index(loop)
+        if not isinstance(loop.test, ast.Name):
+            raise U(f'{q}: the loop condition is not a variable')
+        stack, last, empties, root, table = loop.test.id, [], [], [], []
+        for st in stmts[:k]:
+            if not (isinstance(st, ast.Assign) and len(st.targets) == 1):
+                raise U(f'{q}: statement before the loop is not an assignment: {txt(st)}')
+            t, v = st.targets[0], st.value
+            pairs = list(zip(t.elts, v.elts)) if isinstance(t, ast.Tuple) and isinstance(v, ast.Tuple) and len(t.elts) == len(v.elts) else [(t, v)]
+            for a, b in pairs:
+                if not isinstance(a, ast.Name):
+                    raise U(f'{q}: assignment target before the loop: {txt(st)}')
+                if isinstance(b, ast.Constant) and b.value is None:
+                    last.append(a.id)
+                elif isinstance(b, ast.List) and not b.elts:
+                    empties.append(a.id)
+                elif isinstance(b, ast.Call) and T.dotted_name(b.func) == 'build_tree_structure':
+                    root.append(a.id)
+                elif isinstance(b, ast.DictComp):
+                    table.append(a.id)
+                elif a.id == stack:
+                    pass
+                else:
+                    raise U(f'{q}: unexpected statement before the loop: {txt(st)}')
+        if len(last) != 1 or len(root) != 1:
+            raise U(f'{q}: expected one variable initialised with None and one tree root, found {last}, {root}')
+        return stack, last[0], empties, root[0], table, stmts[:k], stmts[k + 1:]
+
+    def canon(names):
+        """rename the source's variables to the canonical ones in a statement's text"""
+        def f(node):
+            t = ast.unparse(node)
+            for a, b in names.items():
+                t = re.sub(rf'\b{re.escape(a)}\b', b, t)
+            return t.replace(' ', '')
+        return f
+
+    def check_texts(q, what, got, want):
+        if sorted(got) != sorted(w.replace(' ', '') for w in want):
+            raise U(f'{q}: {what}: {sorted(got)}, expected {sorted(want)}')
+
+    def to_pc_loop():
+        q = 'BinaryCLT.to_pc'
+        fn = T.find_func(cltree, q)
+        loop = T.the([s for s in nodoc(fn.body) if isinstance(s, ast.While)], f'{q}: while loop')
+        stack, last, empties, root, table, before, after = roles(q, fn, loop)
+        if len(empties) != 2 or len(table) != 1:
+            raise U(f'{q}: expected two buffers and one factors dictionary before the loop, found {empties}, {table}')
+        # the returned buffer: `<pc> = <buffer>[0]; return assign_ids(<pc>)` or `return assign_ids(<buffer>[0])`
+        ret = T.the(T.returns(fn), f'{q}: return')
+        if not (isinstance(ret, ast.Call) and T.dotted_name(ret.func) == 'assign_ids' and len(ret.args) == 1 and not ret.keywords):
+            raise U(f'{q}: does not return assign_ids(<node>)')
+        v = ret.args[0]
+        if isinstance(v, ast.Name):
+            v = T.the(T.assignments(fn, v.id), f'{q}: {v.id}')
+        if not (isinstance(v, ast.Subscript) and isinstance(v.value, ast.Name) and v.value.id in empties and txt(v.slice) == '0'):
+            raise U(f'{q}: the returned node is not <buffer>[0]')
+        pos = v.value.id
+        neg = T.the([e for e in empties if e != pos], f'{q}: the other buffer')
+        names = {stack: 'nodes_stack', last: 'last_node_visited', neg: 'neg_buffer', pos: 'pos_buffer', root: 'root', table[0]: 'factors'}
+        c = canon(names)
+        check_texts(q, 'the statements before the loop', [c(s) for s in before], [
+            'root = build_tree_structure(self.tree, scope=self.scope)',
+            'factors = {self.scope[i]: np.exp(self.params[i]) for i in range(len(self.tree))}',
+            'neg_buffer, pos_buffer = ([], [])', 'nodes_stack = [root]', 'last_node_visited = None'] if len(before) == 5 else [
+            'root = build_tree_structure(self.tree, scope=self.scope)',
+            'factors = {self.scope[i]: np.exp(self.params[i]) for i in range(len(self.tree))}',
+            'neg_buffer = []', 'pos_buffer = []', 'nodes_stack = [root]', 'last_node_visited = None'])
+        lp = listprog.LP(T, q, [(stack, 'nodes_stack'), (last, 'last_node_visited'), (neg, 'neg_buffer'), (pos, 'pos_buffer')],
+                         methods=TREE,
+                         ctors={'Bernoulli': ('mkBernoulli', ['scope'], ['p']), 'Product': ('mkProduct', [], ['children']),
+                                'Sum': ('mkSum', [], ['children', 'weights'])},
+                         tables={table[0]: 'factors'})
+        body = lp.loop_step(loop, 'node')
+        return ('/-- `BinaryCLT.to_pc`: one iteration of `while nodes_stack:` as a function of the loop state (`nodes_stack`, '
+                '`last_node_visited`, `neg_buffer`, `pos_buffer`), started from `([root], None, [], [])` with `root = '
+                'build_tree_structure(self.tree, scope=self.scope)`; `factors k j` = `factors[k][j]` with `factors = {self.scope[i]: '
+                'np.exp(self.params[i])}`; `mkBernoulli v p` = `Bernoulli(v, p=p)`, `mkProduct cs` = `Product(children=cs)`, `mkSum cs w` = '
+                '`Sum(children=cs, weights=w)`; `isIn` = identity membership; after the loop `assign_ids(pos_buffer[0])` is returned '
+                '(variables named by their role: `pos_buffer` is the buffer whose first entry is returned) -/\n'
+                f'def S5toPcStep {{N C W : Type}} {NSIG}\n'
+                '    (mkBernoulli : Nat → Nat → C) (mkProduct : List C → C) (mkSum : List C → W → C) (factors : Nat → Nat → W)\n'
+                '    (nodes_stack : List N) (last_node_visited : Option N) (neg_buffer pos_buffer : List C) :\n'
+                '    List N × Option N × List C × List C :=\n'
+                f'  {body}')
+    o.const('cltree.to_pc.loop', to_pc_loop)
+
+    def get_scopes_loop():
+        q = 'BinaryCLT.get_scopes'
+        fn = T.find_func(cltree, q)
+        loop = T.the([s for s in nodoc(fn.body) if isinstance(s, ast.While)], f'{q}: while loop')
+        stack, last, empties, root, table, before, after = roles(q, fn, loop)
+        if len(empties) != 2 or table:
+            raise U(f'{q}: expected two lists before the loop, found {empties}, {table}')
+        ret = T.the(T.returns(fn), f'{q}: return')
+        if not (isinstance(ret, ast.Name) and ret.id in empties):
+            raise U(f'{q}: does not return one of its lists')
+        log = ret.id
+        stk = T.the([e for e in empties if e != log], f'{q}: the scopes stack')
+        names = {stack: 'nodes_stack', last: 'last_node_visited', stk: 'scopes_stack', log: 'scopes', root: 'root'}
+        c = canon(names)
+        check_texts(q, 'the statements before the loop', [c(s) for s in before], [
+            'scopes = []', 'scopes_stack = []', 'root = build_tree_structure(self.tree, scope=self.scope)',
+            'nodes_stack = [root]', 'last_node_visited = None'])
+        if [c(s) for s in after] != ['returnscopes']:
+            raise U(f'{q}: after the loop: {[c(s) for s in after]}, expected `return scopes`')
+        lp = listprog.LP(T, q, [(stack, 'nodes_stack'), (last, 'last_node_visited'), (stk, 'scopes_stack'), (log, 'scopes')],
+                         methods=TREE, ctors={}, tables={})
+        body = lp.loop_step(loop, 'node')
+        return ('/-- `BinaryCLT.get_scopes`: one iteration of `while nodes_stack:` as a function of the loop state (`nodes_stack`, '
+                '`last_node_visited`, `scopes_stack`, `scopes`), started from `([root], None, [], [])`; `scopes` is returned -/\n'
+                f'def S5getScopesStep {{N : Type}} {NSIG}\n'
+                '    (nodes_stack : List N) (last_node_visited : Option N) (scopes_stack scopes : List (List Nat)) :\n'
+                '    List N × Option N × List (List Nat) × List (List Nat) :=\n'
+                f'  {body}')
+    o.const('cltree.get_scopes.loop', get_scopes_loop)
